@@ -1,7 +1,7 @@
 //! C05 — fragmentation / reassembly / NACK_FRAG repair, driven on the REAL
 //! RtpsStatefulWriter, RtpsStatefulReader (+ its RtpsWriterProxy) and CacheChange.
 //!
-//! One case per line:  `<rel> <nreaders> <f> | op | op | ...`
+//! One case per line:  `<rel> <nreaders> <f> [<fair>] | op | op | ...`   (fair is only read by the oracle)
 //!   rel      1 = RELIABLE reader and reader proxies, 0 = BEST_EFFORT
 //!   nreaders 1 or 2 reader proxies matched at the writer (reader under test is R1)
 //!   f        data_max_size_serialized of the writer
